@@ -454,6 +454,10 @@ func (s *c14State) aggBattery() {
 		filters = append(filters, flt{name: "filter", pql: n.PQL(), set: set, row: pilosa.NewRow(set.sorted()...)})
 	}
 	fld := s.env.cmds[0].Server.Holder().Field(s.index, "v")
+	cluster := s.env.Nodes > 1
+	if cluster {
+		fld = nil // the Field Go API is node-local by design; on a cluster only PQL is compared
+	}
 	for _, fl := range filters {
 		for _, kind := range []string{"Sum", "Min", "Max"} {
 			want := s.m.agg(s.f, kind, fl.set)
@@ -502,6 +506,9 @@ func (s *c14State) aggBattery() {
 				s.fail(class, fmt.Sprintf("%s: got value %d count %d want value %d count %d", call, gv, gc, want.Val, want.Count), call)
 			}
 		}
+	}
+	if cluster {
+		return
 	}
 	if fld == nil {
 		s.fail("goapi#no-field", "holder.Field returned nil", "")
@@ -563,13 +570,16 @@ func (s *c14State) battery() {
 func TestVerifC14(t *testing.T) {
 	r := vk.Start(t, "C14")
 	defer r.Finish()
-	env := esrvStart(t, 1, "n")
+	env := esrvStart(t, esrvNodes(), "n")
 	defer env.Close()
 	for _, o := range append(append([]string{}, c14Ops...), "between", "notnull") {
 		r.Expect("op:" + o)
 	}
-	r.Expect("write:Set", "write:ImportValue", "write:ImportValue-clear", "goapi:Value", "goapi:Range",
-		"agg:pql:Sum:nofilter", "agg:pql:Min:filter", "agg:pql:Max:filter", "agg:goapi:Sum:filter", "agg:goapi:Min:nofilter", "agg:goapi:Max:nofilter",
+	if env.Nodes == 1 {
+		r.Expect("goapi:Value", "goapi:Range", "agg:goapi:Sum:filter", "agg:goapi:Min:nofilter", "agg:goapi:Max:nofilter")
+	}
+	r.Expect("write:Set", "write:ImportValue", "write:ImportValue-clear",
+		"agg:pql:Sum:nofilter", "agg:pql:Min:filter", "agg:pql:Max:filter",
 		"family:pos", "family:neg", "family:straddle", "family:single", "family:wide", "mode:exhaustive", "mode:deep", "data:all-negative", "data:ties")
 	for d := 1; d <= 6; d++ {
 		r.Expect(fmt.Sprintf("depth:%d", d))
@@ -705,7 +715,7 @@ func TestVerifC14(t *testing.T) {
 		if err := env.createField(index, s.ff, "ranked", 100); err != nil {
 			t.Fatalf("create field: %v", err)
 		}
-		if rng.Chance(1, 12) && os.Getenv("VERIF_C14_NO_REOPEN") == "" {
+		if rng.Chance(1, 12) && os.Getenv("VERIF_C14_NO_REOPEN") == "" && env.Nodes == 1 {
 			// restart with an int field that holds no value yet: the server then stores
 			// values relative to Base = Min
 			if err := env.cmds[0].Reopen(); err != nil {
